@@ -220,7 +220,17 @@ func c15Families(tier string) []engine.Family {
 		vals := append(append([]interface{}{}, c16FoldValues...), c17FoldValues...)
 		vi := x.Choose(len(vals))
 		cd := codecs[x.Choose(3)]
-		c15Fold(x, cd, vals[vi], vi)
+		c15Fold(x, cd, vals[vi], vi, nil)
+	}})
+	// the compiled seed values of the Go space (named types, Folder / IsZeroer implementations, folders registered for
+	// structs, built-in types and pointer-shaped types - the folders reached through unsafe conversions) under the same GC schedule
+	sd := seeds()
+	fams = append(fams, engine.Family{Name: "fold-gc-seeds", Arity: []int{len(sd)}, Dev: 1, Body: func(x *engine.Exec) {
+		si := x.Choose(len(sd))
+		s := sd[si]
+		vi := x.Choose(len(s.vals))
+		cd := codecs[x.Choose(3)]
+		c15Fold(x, cd, s.vals[vi], 1000*(si+1)+vi, s.opts)
 	}})
 	return fams
 }
@@ -457,14 +467,14 @@ func c15UnfoldT(x *engine.Exec, cd *Codec, doc, next []byte, entry, tk, full int
 	}
 }
 
-func c15Fold(x *engine.Exec, cd *Codec, v interface{}, vi int) {
+func c15Fold(x *engine.Exec, cd *Codec, v interface{}, vi int, opts []gotype.FoldOption) {
 	c15Housekeeping()
 	var clean bytes.Buffer
-	if err := gotype.Fold(v, cd.NewEnc(&clean, 0)); err != nil {
-		return
+	if r := guard(2000000, func() error { return gotype.Fold(v, cd.NewEnc(&clean, 0), opts...) }); r.Bad() || r.Err != nil {
+		return // refused or crashing without any GC: C11 / C12 judge that
 	}
 	cnt := &model.Tap{ExtVisitor: structform.EnsureExtVisitor(cd.NewEnc(io.Discard, 0))}
-	gotype.Fold(v, cnt)
+	gotype.Fold(v, cnt, opts...)
 	E := cnt.N
 	gcAt := x.Dev(E+1) - 1
 	x.Case(fmt.Sprintf("fold|%s|%d|%d", cd.Name, vi, gcAt), true)
@@ -479,7 +489,7 @@ func c15Fold(x *engine.Exec, cd *Codec, v interface{}, vi int) {
 				x.Count("gc_injected", 1)
 			}
 		}}
-		return gotype.Fold(v, tap)
+		return gotype.Fold(v, tap, opts...)
 	})
 	if res.Bad() || res.Err != nil {
 		x.Violation("gotype.Fold->"+cd.Name, "gc-"+res.Symptom()+"error", fmt.Sprintf("%T", v), res.Panic+errStr(res.Err), map[string]interface{}{"value": fmt.Sprintf("%T", v), "gc_before_event": gcAt})
